@@ -36,6 +36,39 @@ def check_scene(case):
     return None
 
 
+def check_modes(case):
+    """the same result objects judged under several matching modes and thresholds, in any order: each verdict is the one fresh objects get, and within a mode
+    the TP set only grows as the threshold is loosened (a verdict must not depend on what was asked before)"""
+    import frames
+    from perception_eval.evaluation.matching.object_matching import MatchingMode
+    from perception_eval.evaluation.matching.objects_filter import get_positive_objects, get_negative_objects
+    def results():
+        fr, eo, go, res = frames.frame_result(case["est"], case["gt"], ego=None, task="detection", targets=case["targets"], crit=case["crit"], pass_thr=[1.0] * 3)
+        return fr
+    labels = None
+    shared = results()
+    labels = shared.pass_fail_result.frame_pass_fail_config.target_labels
+    verdict = {}
+    for mode, thr in case["queries"]:
+        mm = MatchingMode(mode)
+        tp, fp = get_positive_objects(shared.object_results, labels, mm, [thr] * 3)
+        tn, fn = get_negative_objects(shared.frame_ground_truth.objects, shared.object_results, labels, mm, [thr] * 3)
+        fresh = results()
+        tp0, fp0 = get_positive_objects(fresh.object_results, labels, mm, [thr] * 3)
+        tn0, fn0 = get_negative_objects(fresh.frame_ground_truth.objects, fresh.object_results, labels, mm, [thr] * 3)
+        got = (sorted(r.estimated_object.uuid for r in tp), len(fp), len(fn))
+        want = (sorted(r.estimated_object.uuid for r in tp0), len(fp0), len(fn0))
+        if got != want:
+            return f"{mode} at {thr}: the results judged before under other modes give (TP, #FP, #FN) = {got}, fresh results give {want}"
+        verdict[(mode, thr)] = set(got[0])
+    for (m1, t1), s1 in verdict.items():
+        for (m2, t2), s2 in verdict.items():
+            looser = (t2 < t1) if m1.startswith("IoU") else (t2 > t1)
+            if m1 == m2 and looser and not s1 <= s2:
+                return f"{m1}: TP {sorted(s1 - s2)} at threshold {t1} is lost at the looser threshold {t2}"
+    return None
+
+
 def check_scene_pooled(case):
     """scene-level evaluation as the manager does it: one nested structure {label: [[], frame results...]} evaluated against several threshold rows
     (loose row first); AP per label must not be lower in the looser row, and the evaluation must not change the structure it is given"""
@@ -103,6 +136,18 @@ def search(item, seed):
         if why:
             return dict(function="scene", input=case, observed=why)
     for _ in range(budget(40)):
+        case = ap.gen_scene(rnd)
+        # the same numbers as thresholds of different modes (a verdict belongs to a mode AND a threshold)
+        qs = [(m, t) for m in ("Center Distance", "IoU 2D", "Plane Distance", "IoU 3D") for t in (0.3, 0.5, 0.6, 1.0)] + [("Center Distance", 2.0)]
+        rnd.shuffle(qs)
+        case["queries"] = qs
+        try:
+            why = check_modes(case)
+        except Exception as ex:
+            why = f"raised {type(ex).__name__}: {ex}"
+        if why:
+            return dict(function="modes", input=case, observed=why)
+    for _ in range(budget(40)):
         base = ap.gen_scene(rnd)
         case = dict(targets=base["targets"], crit=base["crit"], rows=[rnd.choice([1.7, 3.0, 2, 3]), rnd.choice([0.3, 0.9, 1])],
                     frames=[dict(est=base["est"], gt=base["gt"])] + [(lambda b: dict(est=b["est"], gt=b["gt"]))(ap.gen_scene(rnd)) for _ in range(rnd.randint(1, 2))])
@@ -117,7 +162,10 @@ def search(item, seed):
 
 def replay(payload):
     i = payload["input"]
-    if payload["function"] == "pooled":
+    if payload["function"] == "modes":
+        i["queries"] = [tuple(q) for q in i["queries"]]
+        why = check_modes(i)
+    elif payload["function"] == "pooled":
         why = check_scene_pooled(i)
     else:
         why = check_ap(i["w1"], i["w2"], i["G"]) if payload["function"] == "Ap" else check_scene(i)
